@@ -647,7 +647,10 @@ class AsyncClient(base_client.BaseClient):
         """This background task sends packages to the server as they are
         pushed to the send queue.
         """
-        while self.state == 'connected':
+        # packets queued before a disconnect (the CLOSE packet in particular)
+        # are still sent when the disconnect found this task busy
+        while self.state == 'connected' or (
+                self.queue is not None and not self.queue.empty()):
             # to simplify the timeout handling, use the maximum of the
             # ping interval and ping timeout as timeout, with an extra 5
             # seconds grace period
